@@ -369,6 +369,9 @@ def per_unknown_config(kind):
              "initial_condition": {"u": 11.0, "v": 13.0}, "norm_loss": {"u": 17.0, "v": 19.0}}
         def bfun(u):
             return (lambda x: fb[u](x)) if kind == "statio" else (lambda t, x: fb[u](jnp.concatenate([t, x])))
+        ds_ = dp if kind == "statio" else dp - 1
+        NS_ = np.array([[0.3] * ds_, [0.7] * ds_])
+        L_ = 1.5
         def fn(th, a_, pts_, ns, L, oin, oval, bb):
             pd = ParamsDict(nn_params={u: nets[u].nn_params(th[i]) for i, u in enumerate(uk)}, eq_params={"a": a_})
             kw = dict(u_dict={u: nets[u].u for u in uk}, dynamic_loss_dict=dyn, params_dict=pd,
@@ -376,14 +379,14 @@ def per_unknown_config(kind):
                       omega_boundary_fun_dict={u: bfun(u) for u in uk},
                       omega_boundary_condition_dict={u: "dirichlet" for u in uk},
                       omega_boundary_dim_dict=dict(bdim), obs_slice_dict=dict(oslice),
-                      norm_samples_dict={"u": np.zeros((S_, dp if kind == "statio" else dp - 1)), "v": None},
-                      norm_int_length_dict={"u": 1.0, "v": None})
+                      norm_samples_dict={"u": NS_, "v": None},
+                      norm_int_length_dict={"u": L_, "v": None})
             if kind == "nonstatio":
                 kw["initial_condition_fun_dict"] = {u: (lambda x, u=u: fic[u](x)) for u in uk}
             with jax.ensure_compile_time_eval():       # built with concrete data, as users build it (outside any trace)
                 loss = SystemLossPDE(**kw)
-            # symbolic normalisation data put in after construction (see Sys.weights for the reason)
-            loss = put_at(lambda l: (l.u_constraints_dict["u"].norm_samples, l.u_constraints_dict["u"].norm_int_length), loss, (ns, L))
+            # the normalisation samples / length are concrete data given to the constructor: that the constructor hands each
+            # unknown its own entry is part of the contract (nothing is substituted afterwards)
             obs = {u: {"pinn_in": oin[i], "val": oval[i], "eq_params": {}} for i, u in enumerate(uk)}
             if kind == "statio":
                 batch = PDEStatioBatch(inside_batch=pts_, border_batch=bb, obs_batch_dict=obs)
@@ -396,7 +399,7 @@ def per_unknown_config(kind):
                 pk = dict(u=nets[u].u, dynamic_loss=None, params=params, omega_boundary_fun=bfun(u), omega_boundary_condition="dirichlet",
                           omega_boundary_dim=bdim[u], obs_slice=oslice[u])
                 if u == "u":
-                    pk.update(norm_samples=ns, norm_int_length=L)
+                    pk.update(norm_samples=NS_, norm_int_length=L_)
                 if kind == "statio":
                     plain = LossPDEStatio(loss_weights=LossWeightsPDEStatio(dyn_loss=0.0, norm_loss=1.0, boundary_loss=1.0, observations=1.0), **pk)
                     pb = PDEStatioBatch(inside_batch=pts_, border_batch=bb, obs_batch_dict=obs[u])
